@@ -342,3 +342,19 @@ Fixpoint is_infix (p s : string) : bool :=
 Definition borrows_str (ty : string) : bool := is_infix "&'a str" ty.
 Definition field_decodes (f : gfield) (value_needs_unescape : bool) : bool :=
   negb (value_needs_unescape && borrows_str (gf_ty f)).
+
+(* ------------------------------------------------------------------ macro hygiene classes *)
+(* Identifiers the macros' EMITTED code uses for itself (gen/MacroLocals.v, regenerated from the quote!
+   blocks) that are also legal IDL names, classified. Known classes (open findings): member names the
+   ReplyError derive's Serialize arm shadows; custom type names captured by the derive (fixed by the
+   prepared patch) and by the #[proxy] expansion. The other identifiers are bound where no user name is
+   in scope (or before / after it); the hygiene corpus of checks/c15.py compiles and runs an interface
+   for each of them on every run. *)
+Definition known_shadowed_members : list string := ["map"; "serializer"].
+Definition harmless_value_locals : list string :=
+  ["deserializer"; "formatter"; "helper"; "call"; "conn"; "err"; "error"; "method_call"; "params";
+   "reply"; "result"; "stream"].
+Definition known_captured_types : list string :=
+  ["D"; "ParametersSerializer"; "S"; "Params"; "MethodCall"; "ReplyParams"; "ReplyError"].
+Definition harmless_type_names : list string :=
+  ["A"; "E"; "NoParameters"; "Value"; "MethodWrapper"; "NoOutputParameters"; "Socket"].
